@@ -177,6 +177,13 @@ def run_triple(ns, kits, kit, vname, mname, nname, rng, chain_len, tlen, ids="di
             break
     else:
         return None
+    # the chain's last overhang (the vector's upstream one) is no module's start: where the literals leave it free it may be
+    # the reverse complement of one (of an inner junction, or of the vector's other overhang)
+    if rng.random() < 0.4:
+        j_ = rng.randrange(chain_len)
+        cand_ = gen.rc(ovs[j_])
+        if iupac_ok(ms["F3"], cand_) and cand_ not in ovs[:-1] and gen.rc(cand_) != cand_:
+            ovs[-1] = cand_
     vtext = instance_with(V.structure(), ovs[0], ovs[-1], rng, rng.randint(3, 8), avoid)
     # vector group 1 = downstream overhang = start of the chain ; group 3 = upstream overhang = end of the chain
     vec = V(CircularRecord(Seq(ba.rotate(vtext, rng.randrange(len(vtext))) + ""), id=dict(distinct="vec", assembly="vec").get(ids, "<unknown id>")))
